@@ -1,6 +1,7 @@
 //! Verification harness for a4lg/ffuzzy: drives the real API and records what it
 //! returned (trace validation), or replays TLC-generated scenarios.  It contains no
 //! expected values: every judgement is made by TLC against the TLA+ specification.
+mod gen;
 mod util;
 mod words;
 
@@ -19,6 +20,34 @@ fn main() {
                 eprintln!("level {}: {}", k, v.len());
             }
             eprintln!("maxroll {} zeroroll {} none {}", w.maxroll.len(), w.zeroroll.len(), w.none.len());
+        }
+        "gen" => {
+            let w = words::load("/verif/corpus/trigger_words.json");
+            let thorough = args.tier == "thorough";
+            let mode = args.rest.get(0).map(|s| s.as_str()).unwrap_or("all").to_string();
+            let kb = |q: usize, t: usize| if thorough { t * 1024 } else { q * 1024 };
+            if mode == "inputs" || mode == "all" {
+                gen::drive_inputs(&args, &w, kb(160, 4000), kb(24, 400));
+            }
+            if mode == "hist3" || mode == "all" {
+                gen::drive_histories(&args, &w, kb(110, 3000), kb(12, 100), false);
+            }
+            if mode == "hist12" || mode == "all" {
+                gen::drive_histories(&args, &w, kb(110, 3000), kb(12, 100), true);
+            }
+            if mode == "sizes" || mode == "all" {
+                gen::drive_sizes(&args, &w, thorough);
+            }
+        }
+        "replay" => {
+            // replay <family> <in.ndjson>  --out DIR
+            match args.rest[0].as_str() {
+                "gen" => gen::replay(&args.rest[1], &args.out),
+                f => {
+                    eprintln!("unknown replay family {}", f);
+                    std::process::exit(2);
+                }
+            }
         }
         x => {
             eprintln!("unknown command {}", x);
